@@ -504,6 +504,18 @@ class Ops(Suite):
                                               and np.array_equal(sub0[0], sub[0]) and np.array_equal(sub0[1], sub[1]))}
             except Exception as e:  # noqa: BLE001
                 extra["impl"] = {"exc": type(e).__name__}
+            # the deprecated wrapper `to_sub_tree` on the marked (not yet propagated) topology (compared with the GENERATED to_sub_tree, op gtosubdep)
+            try:
+                from swcgeom.core.tree_utils import to_sub_tree
+                with warnings.catch_warnings():
+                    warnings.simplefilter("ignore")
+                    y4, idmap4 = to_sub_tree(t, (marked.copy(), t.pid().copy()))
+                extra["dep"] = {"marked": [int(v) for v in marked], "id": y4.id().tolist(), "pid": y4.pid().tolist(), "type": y4.type().tolist(),
+                                "r8": [int(round(float(v) * 8)) for v in y4.r()], "n": int(y4.number_of_nodes()),
+                                "idmap": [[int(a), int(b)] for a, b in idmap4.items()],
+                                "same": bool(y4.source == t.source and y4.names is t.names and all(np.array_equal(cols0[c], t.get_ndata(c)) for c in cols0))}
+            except Exception as e:  # noqa: BLE001
+                extra["dep"] = {"exc": type(e).__name__}
         elif k == "cutenter":
             rm = set(op["rm"])
             y = cut_tree(t, enter=lambda n, pv: ((0 if pv is None else pv + 1), as_flag(int(n.id) in rm, flag)))
@@ -539,6 +551,12 @@ class Ops(Suite):
             tip_seen = [] if (op["thre"] + t.number_of_nodes()) % 2 == 1 else None
             tip_kw = {} if tip_seen is None else {"callback": lambda br: tip_seen.append([int(i) for i in br.idx])}
             y = CutShortTipBranch(thre=as_param(op["thre"], pk), **tip_kw)(t)
+        if k in ("tosub", "subtree"):
+            # the whole input / result tables for the GENERATED to_subtree / get_subtree over all columns (ops gtosubfull / ggetsubfull)
+            extra["full"] = {"pids": t.pid().tolist(), "types": t.type().tolist(), "r8": [int(round(float(v) * 8)) for v in t.r()],
+                             "ids_are_positions": bool(np.array_equal(t.id(), np.arange(t.number_of_nodes()))),
+                             "out": {"id": y.id().tolist(), "pid": y.pid().tolist(), "type": y.type().tolist(), "r8": [int(round(float(v) * 8)) for v in y.r()],
+                                     "n": int(y.number_of_nodes()), "same": bool(y.source == t.source and y.names is t.names)}}
         res = {"pid": y.pid().tolist(), "id": y.id().tolist(), "r": [float(v) for v in y.r()], "type": y.type().tolist(),
                "xyz": y.xyz().astype(float).tolist(), "input_unchanged": bool(all(np.array_equal(before[c], t.get_ndata(c)) for c in before)),
                "keys": sorted(str(c) for c in y.keys()),
@@ -613,13 +631,26 @@ class Ops(Suite):
         # `_enter` / `_leave` calling the user's callback (the callback is encoded as for the model ops; the generated op runs it statefully)
         if case["op"]["op"] == "tosub":
             out.append((f"gtosubtree {a}", want))
+            dep = res.get("dep")
+            if dep and "exc" not in dep and res.get("full", {}).get("ids_are_positions"):
+                fu = res["full"]
+                out.append((f"gtosubdep pids={gen.ints(fu['pids'])} types={gen.ints(fu['types'])} xs={gen.ints(fu['r8'])} subids={gen.ints(dep['marked'])}",
+                            " / ".join(gen.ints(dep[c]).replace("_", "") for c in ("id", "pid", "type", "r8")) + f" /  / {dep['n']} / "
+                            + ("same" if dep["same"] else "CHANGED") + " / " + ";".join(f"{a}:{b}" for a, b in dep["idmap"])))
             im = res.get("impl")
             if im and "exc" not in im:
                 out.append((f"gsubimpl ids={gen.ints(im['in_ids'])} pids={gen.ints(im['in_pids'])} types={gen.ints(im['in_types'])} xs={gen.ints(im['in_r8'])} "
                             f"subids={gen.ints(im['sub_ids'])} subpids={gen.ints(im['sub_pids'])}",
                             " / ".join(gen.ints(im[c]).replace("_", "") for c in ("id", "pid", "type", "r8", "mapping")) + f" / {im['n']} / "
                             + ("same" if im["same"] else "CHANGED")))
-        elif case["op"]["op"] in ("cutenter", "cutdepth", "cutleave"):
+        fu = res.get("full")
+        if fu and fu["ids_are_positions"] and case["op"]["op"] in ("tosub", "subtree") and not case.get("reuse"):
+            o = fu["out"]
+            exp = (" / ".join(gen.ints(o[c]).replace("_", "") for c in ("id", "pid", "type", "r8")) + " / "
+                   + gen.ints(self._mapping(case, res)).replace("_", "") + f" / {o['n']} / " + ("same" if o["same"] and res["input_unchanged"] else "CHANGED"))
+            fa = f"pids={gen.ints(fu['pids'])} types={gen.ints(fu['types'])} xs={gen.ints(fu['r8'])}"
+            out.append((f"gtosubfull {fa} rm={gen.ints(op['rm'])}", exp) if case["op"]["op"] == "tosub" else (f"ggetsubfull {fa} n={op['n']}", exp))
+        if case["op"]["op"] in ("cutenter", "cutdepth", "cutleave"):
             out.append((f"g{k} {a}", want))
         elif case["op"]["op"] in ("cuttype", "cutorder"):
             # CutByType.__call__ (its `leave` closure over the `removals` set) and CutByFurcationOrder (its `_enter` handed to the generated cut_tree)
